@@ -148,3 +148,12 @@ def distribution(cases):
     d = {}
     for c in cases: d[c["kind"]] = d.get(c["kind"], 0) + 1
     return {"kinds": d}
+def search_cases(rng):
+    """longer parking-like sequences (length 6..14): near-parking functions with one entry perturbed, every length constraint"""
+    out = []
+    for _ in range(3000):
+        n = rng.randint(6, 14); a = sorted(rng.randint(1, i + 1) for i in range(n))
+        if rng.random() < 0.7: a[rng.randrange(n)] += rng.choice([1, 1, 2, -1])
+        rng.shuffle(a)
+        out.append({"kind": "parking", "a": a, "n": rng.choice([None, None, n]), "gen": 0, "s": 0})
+    return out
